@@ -55,6 +55,13 @@ let () =
           Printf.printf "  impl =%s\n  model=%s\n  spec =%s\n  %s\n" (show impl) (show model) (show spec) (String.sub line 0 (min 900 (String.length line)));
           Printf.printf "CASE %d seed=%s DISAGREE steps=%d nontrivial=%d\n" !cur_id !cur_seed (List.length prog) nt
         end
+    | "deep" ->
+        (match Sexp.args sx with
+         | Sexp.A "ok" :: _ -> Printf.printf "CASE %d seed=%s AGREE steps=1 nontrivial=1\n" !cur_id !cur_seed
+         | _ ->
+             Printf.printf "MISMATCH case=%d seed=%s step=0 label=iter kinds=spec:iterator-crash\n  %s\n" !cur_id !cur_seed
+               (String.sub line 0 (min 900 (String.length line)));
+             Printf.printf "CASE %d seed=%s DISAGREE steps=1 nontrivial=1\n" !cur_id !cur_seed)
     | _ -> () in
   List.iter (fun f ->
       let ic = open_in f in
